@@ -189,10 +189,6 @@ func (c *Crew) SetMachine(ctx context.Context, mid string, src *crew.SpecSource,
 		}
 	}
 
-	if src != nil {
-		c.change(mid).SpecSrc = src
-	}
-
 	if state != nil {
 		if have {
 			// Replace the state of an existing machine (and not
@@ -236,11 +232,17 @@ func (c *Crew) SetMachine(ctx context.Context, mid string, src *crew.SpecSource,
 		if src != nil {
 			ss, spec, err := ResolveSpecSource(ctx, src)
 			if err != nil {
+				// The machine keeps the spec (if any) it
+				// had, so no change of spec is reported.
 				return err
 			}
 			m.SpecSource = ss
 			m.Specter = spec
 		}
+	}
+
+	if src != nil {
+		c.change(mid).SpecSrc = src
 	}
 
 	return nil
